@@ -80,7 +80,7 @@ def oracle(o):
 def run(ctx):
     n = 40 if ctx.thorough() else 4
     proof_ok, detail = True, {}
-    ok, out = ctx.regen(["arith", "policy", "symkeys"])
+    ok, out = ctx.regen(["arith", "policy", "symkeys", "chunkpreds"])
     if not ok:
         proof_ok = False
         detail["translator"] = out[-2000:]
